@@ -63,6 +63,60 @@ def _tb(t):
     return _TYPE_BITS.get(t)
 
 
+def pointer_origin(a, func, depth=0):
+    """Where a pointer handed to memcpy / memmove / memcmp comes from, as far as the expression says:
+       ('object', text)   the address of a named object (&x, &x.m, an array decaying to a pointer, this): never null
+       ('data', receiver) data() of a vector / string: null when the container is empty and never allocated
+       None               anything else (a pointer held in a parameter or computed): not decided by U10
+    A pointer held in a local that is initialised once and never assigned is judged by its initialiser."""
+    x = a
+    while isinstance(x, dict):
+        k = x.get('kind')
+        if k == 'ImplicitCastExpr' and x.get('castKind') == 'ArrayToPointerDecay' and children(x):
+            y = strip(children(x)[0], explicit=True)
+            if y.get('kind') in ('DeclRefExpr', 'MemberExpr'):
+                return 'object', 'the array ' + (guards.canon(y) or '?').split(':')[-1]
+            return None
+        if k in ('CXXReinterpretCastExpr', 'CStyleCastExpr', 'CXXStaticCastExpr', 'ImplicitCastExpr', 'ParenExpr',
+                 'CXXConstCastExpr', 'ExprWithCleanups', 'MaterializeTemporaryExpr') and len(children(x)) == 1:
+            x = children(x)[0]
+            continue
+        break
+    if not isinstance(x, dict):
+        return None
+    k = x.get('kind')
+    if k == 'CXXThisExpr':
+        return 'object', '*this'
+    if k == 'UnaryOperator' and x.get('opcode') == '&' and children(x):
+        y = children(x)[0]
+        while y.get('kind') == 'ParenExpr' and children(y):
+            y = children(y)[0]
+        if y.get('kind') in ('DeclRefExpr', 'MemberExpr'):
+            rk = (y.get('referencedDecl') or {}).get('kind')
+            if y.get('kind') == 'MemberExpr' or rk in ('VarDecl', 'ParmVarDecl', 'BindingDecl'):
+                return 'object', (guards.canon(y) or '?').split(':')[-1]
+        return None
+    if k == 'CXXMemberCallExpr' and children(x):
+        callee = strip(children(x)[0])
+        if callee.get('name') != 'data' or not children(callee) or len(children(x)) != 1:
+            return None
+        recv = children(callee)[0]
+        rt = strip(recv).get('type') or ''
+        if 'vector' not in rt and 'basic_string' not in rt and 'string' not in rt:
+            return None
+        return 'data', recv
+    if k == 'DeclRefExpr' and depth < 3 and '*' in (x.get('type') or ''):
+        from ..program import single_assignment_locals
+        init = single_assignment_locals(func.node).get((x.get('referencedDecl') or {}).get('id'))
+        if init is not None:
+            r = pointer_origin(init, func, depth + 1)
+            # data() held in a local: the container has to be known non-empty where the pointer is used (a test
+            # between the two, with no change of the container after it, says the same of the moment data() ran)
+            if r is not None:
+                return r
+    return None
+
+
 def float_cast_in_range(n, facts):
     """n: a FloatingToIntegral cast node -> (proved?, text)."""
     tgt = n.get('dtype') or n.get('type') or ''
@@ -522,9 +576,10 @@ def run(tier='quick'):
     for _name, _ge, _gd in _codec.all_grammars(prog):
         if not _ge.unknown:
             _c03.extent(prog, _ex, chk, U4, _name, _ge)
-    U10 = chk.rule('U10', 'no null pointer reaches memcpy / memmove: a pointer taken from data() of a vector or string '
-                          'is passed only where the container is known to be non-empty (a null pointer is undefined '
-                          'behaviour there even for length 0)', floor=2)
+    U10 = chk.rule('U10', 'no null pointer reaches memcpy / memmove / memcmp: each pointer argument whose origin the '
+                          'expression shows is either the address of an object (&x, an array, this - never null) or a '
+                          'pointer taken from data() of a vector or string, which is passed only where the container is '
+                          'known to be non-empty (a null pointer is undefined behaviour there even for length 0)', floor=2)
     U11 = chk.rule('U11', 'every conversion of a floating value to an integer type has its operand proved inside the '
                           'range of the target type: dominating comparisons against both limits, at least one of which '
                           'held as written (so the operand is not a NaN) - a conversion whose truncated value does not '
@@ -557,22 +612,17 @@ def run(tier='quick'):
             nm = (strip(children(n)[0]).get('referencedDecl') or {}).get('name')
             if nm in ('memcpy', 'memmove', 'memcmp'):
                 for ai, a in enumerate(children(n)[1:3]):
-                    x = strip(a, explicit=True)
-                    while x.get('kind') in ('CXXReinterpretCastExpr', 'CStyleCastExpr', 'CXXStaticCastExpr',
-                                            'ImplicitCastExpr', 'ParenExpr') and children(x):
-                        x = strip(children(x)[0], explicit=True)
-                    if x.get('kind') != 'CXXMemberCallExpr':
-                        continue
-                    callee = strip(children(x)[0])
-                    if callee.get('name') != 'data' or not children(callee):
-                        continue
-                    recv = children(callee)[0]
-                    rt = strip(recv).get('type') or ''
-                    if 'vector' not in rt and 'basic_string' not in rt and 'string' not in rt:
+                    origin = pointer_origin(a, func)
+                    if origin is None:
                         continue
                     if (key, ai) in seen:
                         continue
                     seen.add((key, ai))
+                    if origin[0] == 'object':
+                        chk.ok(U10, '%s: %s argument %d is the address of %s, an object' % (
+                            _short(func.qualname), nm, ai + 1, origin[1]), locstr(n))
+                        continue
+                    recv = origin[1]
                     p = guards.canon(recv)
                     inst = '%s: %s argument %d is %s.data()' % (_short(func.qualname), nm, ai + 1, (p or '?').split(':')[-1])
                     if p and (('NZ:' + p + '.size()') in facts or ('B', '0', '<', p + '.size()') in facts):
